@@ -105,3 +105,22 @@ package interp
 //@   opt call-guard:Fprintln = arg(0) == out
 //@   opt call-guard:Fprint = arg(0) == out
 //@   ensures nothing-else: true
+
+// Use: the interpreter keeps its OWN table per package — a map it allocated, into which the caller's
+// symbols are copied — never the caller's map itself: stdlib.Symbols and its siblings are process-wide
+// variables, and fixStdlib (streams, environment, exit replacements) writes into the interpreter's table.
+//@ lit Interpreter.Use for:values () ()
+//@   props C13
+//@   opt safety = off
+//@   opt opaque-calls = *
+//@   opt opaque-havoc = none
+//@   opt uf-lib = path.Dir, path.Base
+//@   requires [assume] interp != nil && interp.binPkg != nil && interp.pkgNames != nil && v != nil && interp.binPkg[path.Dir(k)] != v && forallS(q, interp.binPkg[q] != interp.binPkg)
+//@   ensures the-callers-map-is-never-adopted: has(interp.binPkg, path.Dir(k)) && interp.binPkg[path.Dir(k)] != nil ==> interp.binPkg[path.Dir(k)] != v
+//@   ensures a-new-package-gets-a-table-of-the-interpreter: old(interp.binPkg[path.Dir(k)]) == nil && interp.binPkg[path.Dir(k)] != nil ==> fresh(interp.binPkg[path.Dir(k)])
+//@   ensures tables-of-other-packages-are-kept: forallS(q, q != path.Dir(k) ==> interp.binPkg[q] == old(interp.binPkg[q]))
+//@   loop 2
+//@   invariant a-table-is-not-the-table-of-tables: forallS(q, interp.binPkg[q] != interp.binPkg)
+//@   invariant the-callers-map-is-not-the-table: interp.binPkg[importPath] != v
+//@   invariant a-new-table-is-the-interpreters-own: old(interp.binPkg[importPath]) == nil ==> fresh(interp.binPkg[importPath])
+//@   invariant other-tables-kept: forallS(q, q != importPath ==> interp.binPkg[q] == old(interp.binPkg[q]))
